@@ -87,6 +87,20 @@ CLAIMED['C19'] = dict(
   design_ref='DESIGN.md section 3 C19',
   note='Trusted: NFC-DEP LR semantics (transport data field), LLCP parameter defaults. One defect repaired (Target ignored the DID byte).',
   technique='def-use provenance + finite evaluation of extracted table expressions + symbolic length (ast)')
+CLAIMED['C04'] = dict(
+  category='other',
+  text='Decides the structural clauses of the NFC-DEP exchange machinery: the chaining loops slice and delete the same width (fragments '
+       'partition the payload) and compute the more flag from what remains; every packet-number increment is modulo 4 and tied to the '
+       'PNI comparison whose failing branch raises ProtocolError; the PFB byte layout of encoder and decoder is inverse on all 96 '
+       'combinations; frames are accepted only behind start-byte/length/code checks and dispatch codes equal the PDU_CODE of the class '
+       'they reach; the recovery rules (resend on repeated PNI/NAK, ATN, DID filter, timeout->ATN, transmission error->NAK) are present; '
+       'the payload budget equals LR minus encoder overhead; only CommunicationError/IOError (and argument errors raised in the entry '
+       'function) leave exchange/activate/deactivate by explicit raise paths; every loop has a recognised progress argument. '
+       'Exactly-once under fault scripts is a trace property of two coupled machines and is not decided.',
+  design_ref='DESIGN.md section 3 C04',
+  note='Assume/guarantee: clf.exchange raises only CommunicationError subclasses or IOError (C13). Implicit IndexError sites on short frames are '
+       'the subject of C07. Loop-progress kinds are an enumerated table of the idioms in nfc/dep.py.',
+  technique='CFG dominance + finite evaluation of bit layouts + exception-escape analysis + loop-progress classification (ast)')
 NA_REASON = {}
 def main():
     checks = []
